@@ -1,8 +1,10 @@
-\* C01 trace validation: the property's words (a well-formed RFC 1928 header and the unmodified payload; closed = the read side saw eof / reset)
+\* C01 trace validation: the property's words (a well-formed RFC 1928 header and the unmodified payload); a write that
+\* blocks for good after the peer closed is a local connection left hanging (signature write_stalled_after_peer_closed,
+\* finding F19)
 SPECIFICATION Spec
 CONSTANTS
   HdrAddr = "any"
-  Stall = "note"
+  Stall = "violation"
 CONSTRAINT Track
 POSTCONDITION Accepted
 CHECK_DEADLOCK FALSE
